@@ -162,15 +162,18 @@ class Collector:
         )
 
 
-def run_hypothesis(prop, tier, seed, n_examples, collector: Collector, time_budget_s=None):
+def run_hypothesis(prop, tier, seed, n_examples, collector: Collector, time_budget_s=None, skip_first=False):
     """Drive prop.strategy(tier) with Hypothesis; prop.check(case) -> CaseResult never raises for oracle failures."""
     import hypothesis
     from hypothesis import HealthCheck, Phase, given, settings
 
     t0 = time.time()
-    state = {"stop": False}
+    state = {"stop": False, "calls": 0}
 
     def body(case):
+        state["calls"] += 1
+        if skip_first and state["calls"] == 1:
+            return  # Hypothesis always starts with the minimal example; one shard (0) running it is enough
         if state["stop"]:
             return
         if time_budget_s is not None and time.time() - t0 > time_budget_s:
@@ -182,7 +185,7 @@ def run_hypothesis(prop, tier, seed, n_examples, collector: Collector, time_budg
     test = given(prop.strategy(tier))(body)
     test = hypothesis.seed(seed)(test)
     test = settings(
-        max_examples=n_examples,
+        max_examples=n_examples + (1 if skip_first else 0),
         database=None,
         deadline=None,
         derandomize=False,
